@@ -9,7 +9,7 @@ import re
 from . import core
 
 
-def hook(trusted, targets, model, bridges):
+def hook(trusted, targets, model, bridges, vocab='coq/Gen/EqPrelude.v'):
     base = list(trusted)
 
     def regenerate():
@@ -20,8 +20,8 @@ def hook(trusted, targets, model, bridges):
         for m in re.finditer(r'py2v_eq: (\S+) -> (\S+) (written|unchanged) \(source sha256 ([0-9a-f]+)\)', out):
             trusted.append('%s regenerated from %s by tools/py2v_eq on this run (%s; sha256 of source %s); tied to the '
                            'hand-written model %s by the *_is_source theorems (%s); trusted: the translator, its '
-                           'signature files tools/py2v_eq/sigs/*.json and the vocabulary coq/Gen/EqPrelude.v'
-                           % (m.group(2), m.group(1), m.group(3), m.group(4), model, bridges))
+                           'signature files tools/py2v_eq/sigs/*.json and the vocabulary %s'
+                           % (m.group(2), m.group(1), m.group(3), m.group(4), model, bridges, vocab))
         if rc != 0:
             trusted.append('translator py2v_eq REFUSED a source on this run (%s); the generated file is stale'
                            % '; '.join(refused))
